@@ -277,7 +277,9 @@ def strip_comments(src):
 def grep_gate():
     """no Admitted/admit/Axiom/...; Variable/Hypothesis only inside a Section"""
     bad = []
-    for root, _, files in os.walk(os.path.join(COQDIR, "theories")):
+    walks = list(os.walk(os.path.join(COQDIR, "theories"))) + list(os.walk(os.path.join(COQDIR, "gen_equiv"))) \
+        + list(os.walk(os.path.join(BUILD, "gen")))
+    for root, _, files in walks:
         for fn in files:
             if not fn.endswith(".v"):
                 continue
@@ -339,6 +341,44 @@ def proof_stage(prop):
     return res
 
 
+def gen_stage(prop, targets):
+    """translation tie (tools/py2coq.py): regenerate the Gallina text of a few decision kernels from the CURRENT source of
+    VERIF_REPO and re-check the hand-written equivalence lemmas (coq/gen_equiv/Equiv_<t>.v) against it.
+    returns dict(ok, targets, detail)"""
+    res = {"ok": True, "targets": list(targets), "detail": "", "lemmas": 0}
+    if not targets:
+        return res
+    gdir = os.path.join(BUILD, "gen", prop)
+    shutil.rmtree(gdir, ignore_errors=True)
+    os.makedirs(gdir, exist_ok=True)
+    repo = os.environ.get("VERIF_REPO", "/repo")
+    p = subprocess.run(["/venv/bin/python", os.path.join(VERIF, "tools", "py2coq.py"), repo, gdir] + list(targets),
+                       capture_output=True, text=True)
+    details = []
+    if p.returncode != 0:
+        res["ok"] = False
+        details.append("translator: " + (p.stdout + p.stderr).strip()[-1200:])
+    for t in targets:
+        gen = os.path.join(gdir, f"Gen_{t}.v")
+        if not os.path.exists(gen):
+            continue
+        eq_src = os.path.join(COQDIR, "gen_equiv", f"Equiv_{t}.v")
+        eq = os.path.join(gdir, f"Equiv_{t}.v")
+        shutil.copy(eq_src, eq)
+        for f in (gen, eq):
+            cmd = f"cd {gdir} && timeout 600 coqc -Q {COQDIR}/theories Corankco -Q {gdir} CorankcoGen {os.path.basename(f)}"
+            q = subprocess.run(cmd, shell=True, capture_output=True, text=True)
+            if q.returncode != 0:
+                res["ok"] = False
+                details.append(f"{os.path.basename(f)}: the kernel translated from the current source is no longer the model's: "
+                               + (q.stdout + q.stderr).strip()[-900:])
+                break
+        else:
+            res["lemmas"] += len(re.findall(r"^Theorem\s", open(eq_src).read(), re.M))
+    res["detail"] = " | ".join(details)
+    return res
+
+
 # --------------------------------------------------------------------------------------------
 # known findings, evidence, verdict
 # --------------------------------------------------------------------------------------------
@@ -354,7 +394,7 @@ def canon_hash(obj):
     return hashlib.sha1(json.dumps(obj, sort_keys=True, default=str).encode()).hexdigest()
 
 
-def run_check(prop, suites, tier, seed, level_note, trusted_extra=(), replay=None, rule=""):
+def run_check(prop, suites, tier, seed, level_note, trusted_extra=(), replay=None, rule="", gen_targets=()):
     """drive a whole check; returns exit code"""
     t0 = time.time()
     rng = random.Random(seed)
@@ -370,6 +410,9 @@ def run_check(prop, suites, tier, seed, level_note, trusted_extra=(), replay=Non
     proof = proof_stage(prop)
     if not proof["ok"]:
         violations.append(("proof", None, None, None, proof["detail"]))
+    gen = gen_stage(prop, gen_targets) if replay is None else {"ok": True, "targets": [], "detail": "", "lemmas": 0}
+    if not gen["ok"]:
+        violations.append(("translation", None, None, None, gen["detail"]))
     total = 0
     distinct = set()
     samples = []
@@ -462,6 +505,10 @@ def run_check(prop, suites, tier, seed, level_note, trusted_extra=(), replay=Non
             if kind == "proof":
                 rep["broken"] = f"theorems of coq/theories/Props/{prop}.v: {proof['theorems']}"
                 rep["detail"] = extra
+            if kind == "translation":
+                rep["broken"] = ("translation tie: the Gallina text generated by tools/py2coq.py from the current source is not "
+                                 "provably the model's any more (coq/gen_equiv/Equiv_*.v), or the source is no longer translatable")
+                rep["detail"] = extra
             if kind == "coq-eval":
                 rep["broken"] = "evaluation of the correspondence case file failed"
                 rep["detail"] = extra
@@ -482,8 +529,11 @@ def run_check(prop, suites, tier, seed, level_note, trusted_extra=(), replay=Non
                              "axioms reported by Print Assumptions on this run: " + (", ".join(proof["axioms"]) or "none (closed under the global context)"),
                              "hand-written Gallina model coq/theories/*.v and the statement of Props/%s.v" % prop,
                              "correspondence harness harness/common.py + harness/check_%s.py (generators, canonicalisation)" % prop,
+                             "translator tools/py2coq.py (python ast -> Gallina, fail-closed) for the kernels listed under translation_tie",
                              "IEEE-754 exactness on the 1/8000 dyadic grid"] + list(trusted_extra),
             "theorems": proof["theorems"],
+            "translation_tie": {"kernels_regenerated_from_source": gen["targets"], "equivalence_lemmas_rechecked": gen["lemmas"],
+                                "ok": gen["ok"]},
             "evaluations": total, "distinct_nontrivial": len(distinct),
             "rule": rule, "samples": samples, "per_suite": per_suite, "input_distribution": stats,
             "exhaustive": bool(exhaustive and total > 0),
@@ -520,7 +570,7 @@ def load_corpus(prop, suite_name):
     return out
 
 
-def main(prop, suites, level_note, trusted_extra=(), rule=""):
+def main(prop, suites, level_note, trusted_extra=(), rule="", gen_targets=()):
     import argparse
     ap = argparse.ArgumentParser()
     ap.add_argument("--tier", default=os.environ.get("VERIF_TIER", "quick"))
@@ -529,4 +579,4 @@ def main(prop, suites, level_note, trusted_extra=(), rule=""):
     seed = int(os.environ.get("VERIF_SEED", "20260930"))
     replay = json.load(open(a.replay)) if a.replay else None
     tier = a.tier if a.tier in ("quick", "thorough") else "quick"
-    sys.exit(run_check(prop, suites, tier, seed, level_note, trusted_extra, replay, rule))
+    sys.exit(run_check(prop, suites, tier, seed, level_note, trusted_extra, replay, rule, gen_targets))
